@@ -10,11 +10,12 @@ def round_of(p, i):
     if p in ("C09", "C10", "C18"):
         return 3 if i <= 5 else (4 if i <= 8 else 6)
     if p in ("C06", "C08", "C11"):
-        return 2 if i <= 5 else (4 if i <= 8 else 5)
+        return 2 if i <= 5 else (4 if i <= 8 else (5 if i <= 11 else 7))
     if i <= 5: return 2
     if i <= 8: return 3
     if i <= 11: return 4
-    return 6 if p in ("C03", "C04", "C15") else 5
+    if p in ("C03", "C04", "C15"): return 6
+    return 5 if i <= 14 else 7
 def key(d):
     p, i = d.split("-"); return (p, int(i))
 for d in sorted(os.listdir(os.path.join(ROOT, "seeded")), key=key):
